@@ -4,6 +4,9 @@ from rules import filters
 
 def check(ctx):
     rep = ctx.rep
+    from rules import tz as _tzz
+    nz = _tzz.check_zone_names(ctx, rep)
+    rep.floor("zone-name table obligations (T-ZONES)", nz, 2)
     n1 = filters.check_spellings(ctx, rep)
     n2 = filters.check_path_rule(ctx, rep)
     n3 = filters.check_skeleton(ctx, rep)
